@@ -703,6 +703,11 @@ fn g3_text(c: &G3Case) -> (String, Option<usize>) {
     }
 }
 
+/// The g3_unicode property closure (also the body of the C15 libFuzzer target).
+pub fn run_g3_small_stack(c: &G3Case, ctx: &mut CaseCtx) -> Result<(), String> {
+    on_small_stack(|| run_g3(c, ctx)).and_then(|r| r)
+}
+
 fn run_g3(c: &G3Case, ctx: &mut CaseCtx) -> Result<(), String> {
     let (text, depth) = g3_text(c);
     ctx.label(["kind:arbitrary", "kind:lexeme_soup", "kind:near_length_limit", "kind:near_depth_limit"][c.kind as usize % 4]);
@@ -1264,7 +1269,7 @@ pub fn run(r: &mut Runner) {
         "arbitrary Unicode strings, KIP lexeme soup, and both padded to within +-2 of the length limit or followed by 62..66 open brackets (further brackets only inside a comment / string): relations 1,2,4-7 through parse_kip/kql/kml/meta/json; non-trivial = within +-2 of a limit, or accepted with >= 2 clauses",
         (60_000, 1_800_000),
         g3_strategy,
-        |c: &G3Case, ctx: &mut CaseCtx| on_small_stack(|| run_g3(c, ctx)).and_then(|r| r),
+        run_g3_small_stack,
     );
 
     r.sub(
